@@ -98,7 +98,6 @@ func (f *verifStateFile) Close() error {
 	return nil
 }
 
-
 // ---- reading the state file back ---------------------------------------------
 
 func (d *verifStateDir) OpenRead(name path.Component) (filesystem.FileReader, error) {
